@@ -98,6 +98,17 @@ Definition effect (what : string) (p : path) (f : fsT -> fsT + oserr) : M unit :
          | inr e => (w1, inr (XOS (err_of e)))
          end.
 
+(* a mutating call that may fail after having changed the tree (os.makedirs) *)
+Definition effect_p (what : string) (p : path) (f : fsT -> fsT * option oserr) : M unit :=
+  fun w =>
+    let n := w_effects w in
+    let w1 := set_effects (S n) w in
+    if existsb (Nat.eqb n) (w_faults w) then (w1, inr (XOS XOSError))
+    else match f (w_fs w1) with
+         | (fs', None) => (set_log (LEffect what p :: w_log w1) (set_fs fs' w1), inl tt)
+         | (fs', Some e) => (set_log (LEffect what p :: w_log w1) (set_fs fs' w1), inr (XOS (err_of e)))
+         end.
+
 Definition is_os (e : exn) : bool := match e with XOS _ => true | _ => false end.
 Definition is_os_class (c : errclass) (e : exn) : bool :=
   match e with XOS c' => errclass_eqb c c' | _ => false end.
